@@ -1,0 +1,148 @@
+//! Stepped driver for the accept loop (only with `--cfg actix_net_verif`).
+//!
+//! A child module of `accept` so that it can hold the real `Accept` value and read its private
+//! state; it adds no behaviour of its own: `step` runs exactly one iteration of the real
+//! `Accept::poll_with` loop body.
+
+use std::{
+    os::unix::io::{AsRawFd, RawFd},
+    sync::mpsc,
+    thread,
+    time::Duration,
+};
+
+use super::{Accept, ServerSocketInfo};
+use crate::socket::MioStream;
+
+/// The real accept loop, run one iteration at a time by the simulator.
+#[allow(missing_docs)]
+pub struct SteppedAccept {
+    accept: Accept,
+    sockets: Box<[ServerSocketInfo]>,
+    // dropping this ends the placeholder thread whose handle the server joins
+    done: Option<mpsc::Sender<()>>,
+    alive: bool,
+}
+
+pub(super) fn adopt(accept: Accept, sockets: Box<[ServerSocketInfo]>) -> thread::JoinHandle<()> {
+    let (tx, rx) = mpsc::channel::<()>();
+
+    let handle = thread::Builder::new()
+        .name("actix-server acceptor (stepped)".to_owned())
+        .spawn(move || {
+            let _ = rx.recv();
+        })
+        .expect("cannot spawn placeholder thread");
+
+    crate::verif::adopt_accept(SteppedAccept {
+        accept,
+        sockets,
+        done: Some(tx),
+        alive: true,
+    });
+
+    handle
+}
+
+pub(crate) fn peer_of(io: &MioStream) -> String {
+    match io {
+        MioStream::Tcp(s) => s
+            .peer_addr()
+            .map(|a| a.to_string())
+            .unwrap_or_else(|_| "?".to_owned()),
+        MioStream::Uds(s) => s
+            .peer_addr()
+            .ok()
+            .and_then(|a| a.as_pathname().map(|p| p.display().to_string()))
+            .unwrap_or_else(|| "?".to_owned()),
+    }
+}
+
+#[allow(missing_docs)]
+impl SteppedAccept {
+    /// Runs one iteration of the accept loop. With `expire` the poll timeout is forced to zero
+    /// first (models "the poll timed out or was interrupted"). The caller must make sure the poll
+    /// would not block (an event is queued on [`epoll_fd`](Self::epoll_fd), or `expire`).
+    ///
+    /// Returns whether the loop is still alive (false once it has processed `Stop`).
+    pub fn step(&mut self, expire: bool) -> bool {
+        if !self.alive {
+            return false;
+        }
+
+        if expire {
+            self.accept.timeout = Some(Duration::ZERO);
+        }
+
+        crate::verif::begin_step();
+        self.accept.poll_with(&mut self.sockets);
+        // `true` when the loop was cut at the step boundary, `false` when it returned by itself
+        self.alive = crate::verif::end_step();
+
+        if !self.alive {
+            self.done.take();
+        }
+
+        self.alive
+    }
+
+    pub fn alive(&self) -> bool {
+        self.alive
+    }
+
+    pub fn epoll_fd(&self) -> RawFd {
+        self.accept.poll.as_raw_fd()
+    }
+
+    /// Current poll timeout of the loop (armed while some listener is backing off).
+    pub fn timeout(&self) -> Option<Duration> {
+        self.accept.timeout
+    }
+
+    pub fn paused(&self) -> bool {
+        self.accept.paused
+    }
+
+    /// The accept loop's own availability view.
+    pub fn available(&self, idx: usize) -> bool {
+        self.accept.avail.get_available(idx)
+    }
+
+    pub fn any_available(&self) -> bool {
+        self.accept.avail.available()
+    }
+
+    /// Position of the rotation cursor in `handle_idxs()`.
+    pub fn next_pos(&self) -> usize {
+        self.accept.next
+    }
+
+    /// Worker indices of the handles currently in the rotation, in rotation order.
+    pub fn handle_idxs(&self) -> Vec<usize> {
+        self.accept.handles.iter().map(|h| h.idx()).collect()
+    }
+
+    /// Raw counter values (in-progress + 1) of the handles, in rotation order.
+    pub fn handle_counters(&self) -> Vec<usize> {
+        self.accept
+            .handles
+            .iter()
+            .map(crate::worker::verif_worker::counter_raw)
+            .collect()
+    }
+
+    /// Whether the listener with this token is waiting for its error back-off to expire.
+    pub fn socket_backoff(&self, token: usize) -> bool {
+        self.sockets
+            .iter()
+            .any(|s| s.token == token && s.timeout.is_some())
+    }
+
+    pub fn listener_tokens(&self) -> Vec<usize> {
+        self.sockets.iter().map(|s| s.token).collect()
+    }
+
+    pub fn waker_queue_len(&self) -> usize {
+        self.accept.waker_queue.guard().len()
+    }
+}
